@@ -184,7 +184,7 @@ def routing(R, ctx):
                     mt = take('match')
                     passes = bool(mt)
                     if mt is None:
-                        problems.append("text filter present but not applied")
+                        problems.append("a text filter is set but the message is not matched against it")
                         continue
                 elif tf is None and ctx.has('textfilter'):
                     problems.append("text filter not consulted")
@@ -192,7 +192,9 @@ def routing(R, ctx):
                 if passes:
                     lf = take('linefilter')
                     if lf is None:
-                        problems.append("line filter option not examined")
+                        problems.append("the record is dropped although the specification enables it and " +
+                                        ("no text filter is set" if tf == 'None' else "the text filter matches" if tf == 'Some' else "there is no text filter support") +
+                                        " (documented: it is passed on to the line filter or the primary writer)")
                         continue
                     exp.append('write@other' if lf == 'Some' else 'write@primary')
                     pr = take('pres')
